@@ -4,6 +4,7 @@
 -/
 import Pongo.Lemmas.Eval
 import Pongo.Gen.Effects
+import Pongo.Lemmas.KeepsAll
 
 namespace Pongo.C12
 
@@ -118,5 +119,49 @@ theorem gen_caller_data_never_written : Gen.execWrites = [] := by decide
 
 /-! ### non-vacuity -/
 example : identOk b!"bad key" = false ∧ identOk b!"good_1" = true := by decide
+
+/-! ### the whole interpreter: nothing a construct binds escapes it
+
+`sview` is the observable part of the context stack (every context's identity, private and public
+bindings, escaping mode, template chain — all but the recursion counter).  These theorems hold for
+every fuel, every node / expression (any nesting), every starting state, and whether or not the
+execution fails; they come from one simultaneous induction over all functions of the interpreter
+(`Lemmas/KeepsAll.lean`). -/
+
+/-- **No construct touches an enclosing context.**  Executing any node leaves every context below
+    the current one — the caller's context among them — exactly as it was, and the stack as high
+    as it was. -/
+theorem constructs_never_touch_enclosing_contexts (fuel : Nat) (n : Node) (σ : ES) (h : σ.frames ≠ []) :
+    (resState ((execNode T cfg g fuel n).run σ)).frames.length = σ.frames.length ∧
+    sview (resState ((execNode T cfg g fuel n).run σ)).frames.tail = sview σ.frames.tail := by
+  have := (allKeeps T cfg g fuel).execNode n
+  unfold Keeps at this
+  exact (this σ h).2
+
+/-- **Expressions bind nothing.**  Evaluating any expression — macro calls, filters, `block.Super`
+    included — leaves every context, the current one too, exactly as it was. -/
+theorem expressions_bind_nothing (fuel : Nat) (e : Expr) (σ : ES) (h : σ.frames ≠ []) :
+    sview (resState ((eval T cfg g fuel e).run σ)).frames = sview σ.frames := by
+  have := (allKeeps T cfg g fuel).eval e
+  unfold KeepsTop at this
+  exact (this σ h).2
+
+/-- **A body run in a child context gives the current context back as it was** (`with`, `for`, a
+    macro call, `block`, an included template all run their body this way): bindings made inside —
+    by `set`, by nested constructs, by anything — end with the body. -/
+theorem scoped_body_restores_current_context (fr : Frame) (fuel : Nat) (body : List Node) (σ : ES) :
+    sview (resState ((withFrame fr (execNodes T cfg g fuel body)).run σ)).frames = sview σ.frames :=
+  (withFrame_same fr ((allKeeps T cfg g fuel).execNodes body) σ).2
+
+/-- **A whole execution leaves the stack as it found it** — also the first one, started without
+    any context, and also when it fails. -/
+theorem execution_leaves_stack_as_found (fuel ti : Nat) (ctx : Env) (σ : ES) :
+    sview (resState ((executeTpl T cfg g fuel ti ctx).run σ)).frames = sview σ.frames := by
+  have := keepsAny_executeTpl T cfg g fuel ti ctx
+  unfold KeepsAny at this
+  exact (this σ).2
+
+-- non-vacuity: a state with two contexts
+example : ({ frames := [default, default] } : ES).frames ≠ [] := by simp
 
 end Pongo.C12
